@@ -22,6 +22,29 @@ CHECKS = {
         design="5/C03"),
 }
 
+CHECKS["C01"] = dict(
+    text="Theorems (Props/C01.lean, C01Framing.lean) over the model of han/hdlc.py for ALL octet streams, configurations and (by C06) "
+         "splittings: every returned frame satisfies the frame invariant (running FCS register = FCS of its octets, cached control "
+         "position = position determined by the address fields); is_valid <-> Intact (length field = octet count and trailer = "
+         "RFC 1662 FCS-16 of the preceding octets, low octet first; uses the C03 residue theorem); every returned frame has a complete "
+         "header and for a frame of shape fmt|dst|src|ctl|hcs|rest each accessor returns exactly those octets; framing: the returned "
+         "frames are the (un-stuffed) images of contiguous, disjoint, in-order segments of the input, each between two flag octets "
+         "(inductive spec Carve). Correspondence: real HdlcFrameReader vs model on generated stream families x 4 cfgs x chunkings and on "
+         "all short streams over a 5-symbol alphabet; the implementation's output is also judged by an executable transcription of the spec.",
+    note=NOTE_COMMON + "Not modelled: logging, the cached _is_header_good flag, buffer content before the read position.",
+    technique="Lean 4 proof (invariants by induction over the octet stream, C03 residue) + regenerated constants + differential correspondence",
+    design="5/C01")
+CHECKS["C06"] = dict(
+    text="Theorems (Props/C06.lean): the buffer-level model of read() (buffer, read position, hunt-mode trimming, loop) equals the "
+         "octet-at-a-time machine; a read() call leaves nothing unread; any sequence of read() calls equals one run over the "
+         "concatenated stream; hence for every stream, every two splittings, every configuration and every reachable reader state the "
+         "same frames (all fields) come out and the reader ends in the same state. Correspondence: real reader vs model (frames and "
+         "internal buffer/raw/frame sizes after every call) on generated families x 3 chunkings x 4 cfgs and exhaustively on all "
+         "streams up to a small length over {7E,7D,A0,07,01} x every cut set; outputs of the real reader are compared across chunkings.",
+    note=NOTE_COMMON + "Buffer content before the read position is represented by its length only.",
+    technique="Lean 4 proof (refinement: buffered loop = per-octet fold, by functional induction) + differential correspondence",
+    design="5/C06")
+
 NOT_YET = {}
 
 
